@@ -110,6 +110,12 @@ pub fn set_value(world: &mut World, loc: (usize, u64), v: u64) {
         world.insert_by_id(id, { let mut t = T::default(); t.set(v); t });
     })
 }
+pub fn remove_value(world: &mut World, loc: (usize, u64)) {
+    by_type!(loc.0, T => {
+        let id = ResourceId::new_with_dynamic_id::<T>(loc.1);
+        let _ = world.remove_by_id::<T>(id);
+    })
+}
 /// 0 = free, 1 = shared, 2 = exclusive, 3 = absent
 pub fn borrow_class(world: &World, loc: (usize, u64)) -> u8 {
     let id = rid_of(loc);
